@@ -73,6 +73,10 @@ class Schema:
         toks = [str(len(self.desc["instances"]))]
         for i in self.desc["instances"]:
             toks += inst_toks(i)
+        named = [i for i in self.desc["instances"] if i["kind"] in ("struct", "union") and i.get("tlname")]
+        toks += ["R", str(len(named))]
+        for i in named:
+            toks += [str(i["idx"]), i["tlname"], "1" if i["topLevel"] else "0"]
         return "codec.desc %s %s %s" % (self.sid, "1" if self.sanity else "0", " ".join(toks))
 
     def top_items(self):
@@ -355,3 +359,81 @@ def mutate(rng, b):
         i = rng.below(len(m) + 1)
         m[i:i] = rng.bytes(rng.range(1, 4))
     return bytes(m)
+
+
+# ------------------------------------------------------------------ shared set-up of the codec checks
+def corpus(c, small=False):
+    T = TLS
+    s = [Schema("cases", [T + "/cases.tl"], tl2="*", sanity=True, bytes_wl="cases_bytes."),
+         Schema("casesns", [T + "/cases.tl"], tl2="", sanity=False)]
+    if c.thorough and not small:
+        s += [Schema("gold", [T + "/goldmaster.tl", T + "/goldmaster2.tl", T + "/goldmaster3.tl"], tl2="*", sanity=True, split=True,
+                     bytes_wl="ch_proxy.,ab.")]
+    return s
+
+
+def prepare(c, schemas=None):
+    """Build tl2gen + hcodec from the working tree, export descriptors, generate code, link factory items.
+    Returns (model_cmd, hcodec_cmd, [Schema with .items])."""
+    model = c.model_exe()
+    hcodec = c.harness("hcodec")
+    tl2gen = build_tl2gen(c)
+    out = []
+    for sc in (schemas if schemas is not None else corpus(c)):
+        d, err = export_desc(c, hcodec, sc)
+        if d is None:
+            c.proof_failures.append({"stage": "descriptor export", "schema": sc.sid, "detail": err})
+            continue
+        ok, msg = generate(c, tl2gen, sc)
+        if not ok:
+            c.proof_failures.append({"stage": "generate", "schema": sc.sid, "detail": msg})
+            continue
+        sc.items = link_items(sc)
+        sc.otf = hcodec + ["otf"] + (["-tl2", sc.tl2] if sc.tl2 else []) + sc.files
+        out.append(sc)
+    c.extra["programs"] = len(out)
+    c.extra["schemas"] = [{"sid": s.sid, "files": [os.path.basename(f) for f in s.files], "tl2": s.tl2, "sanity": s.sanity,
+                           "instances": len(s.desc["instances"]), "factory_items": len(s.items)} for s in out]
+    c.trusted += ["hcodec descriptor export (pure.Kernel accessors)", "generic driver go/hgen over generated meta/factory",
+                  "modelled not verified: Go slices/maps/append, encoding/binary; the tie is differential"]
+    return model, hcodec, out
+
+
+def reach_kinds(sc, ty, seen=None):
+    """set of instance kinds reachable from ty"""
+    seen = seen if seen is not None else set()
+    if ty in seen:
+        return set()
+    seen.add(ty)
+    i = sc.desc["instances"][ty]
+    res = {i["kind"]}
+    for f in i.get("fields") or []:
+        res |= reach_kinds(sc, f["ty"], seen)
+    if i.get("elem"):
+        res |= reach_kinds(sc, i["elem"]["ty"], seen)
+    for v in i.get("variants") or []:
+        res |= reach_kinds(sc, v, seen)
+    return res
+
+
+def x1_lines(sc, rng, per, big=False, mutants=1, valid=True):
+    g = Gen1(sc, rng.fork(), big=big)
+    lines = []
+    for inst, it in sc.items:
+        for boxed in (0, 1):
+            if inst["kind"] == "union" and not boxed:
+                continue
+            for _ in range(per):
+                b = g.value(inst["idx"], not boxed, [], 0)
+                if valid:
+                    rest = rng.bytes(rng.below(5)) if rng.chance(1, 3) else b""
+                    lines.append("codec.x1 %s %d %s %d %s" % (sc.sid, inst["idx"], inst["tlname"], boxed, hx(b + rest)))
+                for _ in range(mutants):
+                    m = mutate(rng, b) if sc.sanity else b[:rng.below(len(b) + 1)]
+                    lines.append("codec.x1 %s %d %s %d %s" % (sc.sid, inst["idx"], inst["tlname"], boxed, hx(m)))
+    return lines
+
+
+def outputs(a):
+    """{'w1': hex, 'w1b': hex, ...} from an `ok n k=v …` answer"""
+    return dict(p.split("=", 1) for p in a.split(" ")[2:] if "=" in p)
